@@ -279,9 +279,10 @@ def _sequence_data(env, lindblad):
     U = T.tensor([[0.0, 1.5], [1.5, 0.0]], dtype=T.float64)
     ops = [T.tensor([[0.0, 0.3], [0.0, 0.0]], dtype=T.complex128)] if lindblad else []
     return eb.SequenceData(
-        omega=T.zeros(steps, n, dtype=T.complex128),
-        delta=T.zeros(steps, n, dtype=T.complex128),
-        phi=T.zeros(steps, n, dtype=T.complex128),
+        # atom-dependent drives: whether they sit in register or in site order matters
+        omega=T.tensor([[1.0, 2.0], [3.0, 4.0]], dtype=T.complex128),
+        delta=T.tensor([[0.5, -0.5], [0.25, 0.75]], dtype=T.complex128),
+        phi=T.tensor([[0.0, 0.125], [0.375, 0.0]], dtype=T.complex128),
         interaction_matrix=lambda t: U,
         qubit_ids=("q0", "q1"),
         bad_atoms=(False, False),
@@ -330,6 +331,7 @@ def pickled_fields(env):
         data = _sequence_data(env, cls_name == "NoisyMPSBackendImpl")
         impl = mi.create_impl(data, cfg)
         env.check(type(impl).__name__ == cls_name, "create_impl builds the requested implementation")
+        impl.init_dark_qubits()  # (as init() does before the first autosave can happen: the dark-atom mask exists)
         impl.state = types.SimpleNamespace(factors=[], config=cfg)
         if progressed:
             impl.current_time = env.real("current_time", lo=0.0, hi=20.0)
@@ -344,11 +346,8 @@ def pickled_fields(env):
         keys_before = set(impl.__dict__)
         cfg_before, results_before = impl.config, impl.results
         d = impl.__getstate__()
-        env.check(set(d) == keys_before, "__getstate__ saves every instance attribute")
-        env.check(
-            all(d.get(k, ABSENT) is impl.__dict__[k] for k in keys_before - {"config", "results"}),
-            "__getstate__ passes every attribute except config/results through unchanged",
-        )
+        # (no clause on WHAT is pickled: an implementation may drop derivable attributes and rebuild them on
+        # load; what resume needs is that the restored solver has every attribute with the same value - below)
         env.check(
             impl.config is cfg_before and impl.results is results_before and set(impl.__dict__) == keys_before,
             "__getstate__ leaves the running implementation's own attributes in place",
@@ -363,6 +362,19 @@ def pickled_fields(env):
                 env.check(have == want, f"restored implementation has the same {name}")
             else:
                 env.check_eq(have, want, f"restored implementation has the same {name}")
+        # every attribute of the running solver comes back, tensors with the same values (the per-atom drives
+        # are held in SITE order: a restore that rebuilds them must permute them again)
+        missing = sorted(k for k in keys_before if k not in new.__dict__)
+        env.check(not missing, f"the restored solver has every attribute of the running one (missing: {missing})")
+        for name in sorted(keys_before - {"config", "results", "state", "statistics"} - set(PROGRESS_FIELDS)):
+            want = impl.__dict__[name]
+            have = new.__dict__.get(name, ABSENT)
+            if have is ABSENT:
+                continue
+            if hasattr(want, "shape") and hasattr(want, "dtype"):
+                env.check_eq(have, want, f"restored solver: tensor attribute `{name}` has the same values")
+            elif isinstance(want, (int, float, str, bool, tuple)) or want is None:
+                env.check(have == want, f"restored solver: attribute `{name}` has the same value")
         env.check(isinstance(new.results, pb.Results), "restored results are a Results object")
         want_order = ("q1", "q0") if reorder else ("q0", "q1")
         env.check(tuple(str(a) for a in new.results.atom_order) == want_order, "restored results keep the solver's site order (un-permuted only at the end of the run)")
